@@ -2,9 +2,14 @@
 import io
 
 from ..framework import Check
-from .. import fieldlib as fl, reglib, lib
+from .. import fieldlib as fl, reglib, lib, relib
 from .c05 import canonical_value
 from .c09 import gen_bin_value
+
+
+SELF_MATCHING = [["seq", ["lit", "A"], ["any"]], ["plus", ["lit", "B"]], ["plus", ["cls", False, [[65, 66]]]],
+                 ["seq", ["lit", "X"], ["opt", ["lit", "1"]]], ["seq", ["star", ["lit", "Q"]], ["lit", "Z"]], ["s", True],
+                 ["seq", ["bol"], ["any"]], ["alt", ["lit", "A"], ["lit", "B"]]]
 
 
 def gen_defs(rng, mode):
@@ -14,6 +19,12 @@ def gen_defs(rng, mode):
         # identifiers that begin or end with a blank column are part of positional layouts; a delimited line trims its tokens,
         # so there they are outside the domain (the written identifier token would not be the identifier any more)
         ident = rng.choice(["", "A", "AB", "X1", "ABC", "Z9", "Q"] + ([" CT", " &X", "R "] if mode != "delim" else [])) if rng.random() < 0.9 else ""
+        pat = None
+        if mode != "delim" and rng.random() < 0.12:
+            # an IDENTIFIER that is a regular expression which finds its own source text: Register.write puts the attribute
+            # itself into the identifier columns, so the written register is recognised iff the expression matches its source
+            pat = rng.choice(SELF_MATCHING)
+            ident = relib.render(pat)
         digits = rng.randint(len(ident), len(ident) + 3)
         fs = []
         pos = digits
@@ -36,6 +47,8 @@ def gen_defs(rng, mode):
         if len(fs) > 1 and rng.random() < 0.3:
             rng.shuffle(fs)   # declared in an order different from the columns; the layout (and the record width) is unchanged
         out.append({"ident": ident, "digits": digits, "fields": fs, "delim": rng.choice([";", ",", "|", "\t", "\t"]) if mode == "delim" else None})
+        if pat is not None:
+            out[-1]["ident_pat"] = pat
     if len(out) > 1 and rng.random() < 0.25:
         for i in range(1, len(out)):
             if rng.random() < 0.6:
@@ -53,7 +66,7 @@ class CHECK(Check):
             "are skipped): every register is written with Register.write, its own type's matches() is evaluated on the "
             "output, then all are read back with Register.read and buffer.tell() is observed after every read. "
             "non-trivial = stream of >= 2 records; distinct = hash"
-            " Later additions: fields declared out of column order, identifiers beginning/ending with a blank (positional, binary), tab delimiter, class hierarchies, file-level binary read with an 8-byte window.")
+            " Round 12: 12 % of the positional/binary identifiers are regular expressions that find their own source text (A. B+ [AB]+ X1? Q*Z \\S ^. A|B): Register.write puts the IDENTIFIER attribute itself into the identifier columns. Later additions: fields declared out of column order, identifiers beginning/ending with a blank (positional, binary), tab delimiter, class hierarchies, file-level binary read with an 8-byte window.")
 
     def gen(self, tier, rng):
         n = 3000 if tier == "quick" else 60000
@@ -194,7 +207,7 @@ class CHECK(Check):
             # file-level reading of the stream: when every record is recognised unambiguously by its own identifier in the
             # peek window, the typed elements are exactly the records, in order (nothing dropped, nothing mis-aligned)
             idents = [rd["ident"] for rd in case["defs"]]
-            clear = all(idents) and len(set(idents)) == len(idents) and all(len(i) <= self.LS for i in idents) and \
+            clear = not any("ident_pat" in rd for rd in case["defs"]) and all(idents) and len(set(idents)) == len(idents) and all(len(i) <= self.LS for i in idents) and \
                 not any(a != b and a in b.ljust(max(len(a), len(b))) for a in idents for b in idents) and \
                 all(rd["digits"] <= self.LS for rd in case["defs"])
             if clear:
